@@ -1,4 +1,5 @@
-import AcraModel.Envelope.SafeUnchanged
+import AcraModel.Envelope.SafeGenuine
+import AcraModel.Crypto.Box
 /-!
 # C03 — any modification of a protected value is detected, never mis-decrypted
 
@@ -215,5 +216,175 @@ theorem onColumn_damaged_unchanged (c : CryptoOps) (kv : KeyView) (rest : Bytes)
       ∀ m, process c kv (rest.drop i) ≠ .ok m) :
     ∃ hit, onColumn [decryptCallback c kv] rest = .ok rest hit :=
   onColumn_decrypt_same c kv rest (fun i hi hst m hm => absurd hm (hs i hi hst m))
+
+/-! ## E. accepted ⇒ genuine (ideal authenticity of the seal: `SealLaws c`)
+
+What the reader accepts is literally what the writer builds for exactly that plaintext under one of
+the reader's keys. Consequences under commitment (`SealCommit c`, never together with a length
+law): keeping the sealed data part fixes the plaintext; splicing parts of two values is rejected. -/
+
+/-- **AcraBlock: accepted ⇒ genuine.** If `AcraBlock.Decrypt` returns `m`, then for one of the reader's
+keys there are a data key and nonces such that the block, from byte 12 on, is exactly what
+`CreateAcraBlock`/`Build` produces: backend ids, the key id of that key, the 2-byte length of the
+sealed data key, the data key sealed under the reader's key, and `m` sealed under the data key
+(same context). The only bytes `Decrypt` never looks at – hence free – are the first twelve: tag and
+rest-length (checked by `ExtractAcraBlockFromData`, see `reveal_genuine`). -/
+theorem decryptBlock_genuine (c : CryptoOps) (hs : SealLaws c) (keys : List Bytes) (ctx b m : Bytes)
+    (h : decryptBlock c keys ctx b = .ok m) :
+    ∃ key ∈ keys, ∃ dek n1 n2 encKey encData,
+      n1.length = nonceLen ∧ n2.length = nonceLen ∧
+      c.enc key ctx dek n2 = some encKey ∧ c.enc dek ctx m n1 = some encData ∧
+      encKey = (b.take (18 + leVal ((b.take 18).drop 16))).drop 18 ∧
+      encData = b.drop (18 + leVal ((b.take 18).drop 16)) ∧
+      b.drop 12 = (buildBlock (keyId c key ctx) encKey encData).drop 12 := by
+  obtain ⟨hl, h12, h15, key, hm, dek, hid, hk, hd⟩ := decryptBlock_ok_parts h
+  obtain ⟨n2, hn2, e2⟩ := hs.enc_of_dec _ _ _ _ hk
+  obtain ⟨n1, hn1, e1⟩ := hs.enc_of_dec _ _ _ _ hd
+  refine ⟨key, hm, dek, n1, n2, blockEncKey b, blockEncData b, hn1, hn2, e2, e1, rfl, rfl, ?_⟩
+  rw [hid]
+  exact block_layout_from12 b hl h12 h15
+
+/-- **AcraStruct: accepted ⇒ genuine.** If `DecryptAcrastruct` returns `m`, the input is
+`tag | pub(45) | wrapped(84) | len(8) | body` with `len = |body|`, the wrapped key unwraps under the
+reader's private key to a symmetric key, and `body` is `m` sealed under that key and the context –
+the shape `CreateAcrastruct` produces. -/
+theorem decryptStruct_genuine (c : CryptoOps) (hs : SealLaws c) (priv ctx d m : Bytes)
+    (h : decryptStruct c priv ctx d = .ok m) :
+    ∃ pub wrapped body symKey n2, pub.length = 45 ∧ wrapped.length = 84 ∧ n2.length = nonceLen ∧
+      d = structTag ++ pub ++ wrapped ++ leBytes 8 body.length ++ body ∧
+      c.unwrap priv pub wrapped = some symKey ∧ symKey ≠ [] ∧ c.enc symKey ctx m n2 = some body := by
+  obtain ⟨hv, symKey, hne, hu, hd⟩ := decryptStruct_ok_parts h
+  obtain ⟨n2, hn2, e2⟩ := hs.enc_of_dec _ _ _ _ hd
+  have hl := (validateStruct_ok hv).1
+  refine ⟨(d.drop 8).take 45, (d.drop 53).take 84, d.drop 145, symKey, n2, ?_, ?_, hn2,
+    validateStruct_layout hv, hu, hne, e2⟩
+  · rw [List.length_take, List.length_drop]; omega
+  · rw [List.length_take, List.length_drop]; omega
+
+/-- … and when the ephemeral public key in the AcraStruct belongs to a valid key pair (as it does when
+`CreateAcrastruct` made it) and the reader's key is valid, the wrapped key is literally
+`wrap ePriv (pubOf priv) symKey` (ideal authenticity of Secure Message, `MsgLaws c`). -/
+theorem decryptStruct_genuine_sender (c : CryptoOps) (hs : SealLaws c) (hm : MsgLaws c) (priv ePriv ctx rest m : Bytes)
+    (hp : c.validPriv priv = true) (he : c.validPriv ePriv = true)
+    (h : decryptStruct c priv ctx (structTag ++ c.pubOf ePriv ++ rest) = .ok m) (hlen : (c.pubOf ePriv).length = 45) :
+    ∃ wrapped body symKey n1 n2, n1.length = nonceLen ∧ n2.length = nonceLen ∧
+      rest = wrapped ++ leBytes 8 body.length ++ body ∧
+      c.wrap ePriv (c.pubOf priv) symKey n1 = some wrapped ∧ c.enc symKey ctx m n2 = some body := by
+  obtain ⟨pub, wrapped, body, symKey, n2, hpl, hwl, hn2, hd, hu, _, e2⟩ := decryptStruct_genuine c hs _ _ _ _ h
+  simp only [List.append_assoc] at hd
+  have h1 := List.append_cancel_left hd
+  have h2 := List.append_inj h1 (by rw [hlen, hpl])
+  obtain ⟨h3, h4⟩ := h2
+  subst h3
+  obtain ⟨n1, hn1, e1⟩ := hm.wrap_of_unwrap ePriv priv wrapped symKey he hp hu
+  exact ⟨wrapped, body, symKey, n1, n2, hn1, hn2, by rw [h4]; simp, e1, e2⟩
+
+/-- **No mis-decryption (AcraBlock).** Whoever keeps the sealed data part of a value cannot make the
+reader return anything but the original plaintext, whatever else is modified, truncated, extended
+or spliced (tag, lengths, backend ids, key id, key part): if the bytes after the key part are a
+ciphertext of `m0` and the block decrypts at all, it decrypts to `m0` – and only in the original
+context. -/
+theorem block_no_misdecrypt (c : CryptoOps) (hs : SealLaws c) (hc : SealCommit c) (keys : List Bytes)
+    (ctx b m dek0 ctx0 m0 n0 ct0 : Bytes) (h : decryptBlock c keys ctx b = .ok m)
+    (hdata : b.drop (18 + leVal ((b.take 18).drop 16)) = ct0) (h0 : c.enc dek0 ctx0 m0 n0 = some ct0) :
+    m = m0 ∧ ctx = ctx0 := by
+  obtain ⟨key, _, dek, n1, n2, encKey, encData, _, _, _, e1, _, hed, _⟩ := decryptBlock_genuine c hs keys ctx b m h
+  rw [hed, hdata] at e1
+  obtain ⟨_, h2, h3⟩ := hc.enc_inj _ _ _ _ _ _ _ _ _ e1 h0
+  exact ⟨h3, h2⟩
+
+/-- **Splicing is rejected (AcraBlock).** The key part of one value (data key `dek1`) combined with the
+data part of another value (sealed under `dek2 ≠ dek1`) is never accepted, under any key list. -/
+theorem block_splice_rejected (c : CryptoOps) (hs : SealLaws c) (hc : SealCommit c) (keys : List Bytes)
+    (ctx b key1 dek1 nk encKey1 dek2 ctx2 m2 nd ct2 : Bytes)
+    (hk : c.enc key1 ctx dek1 nk = some encKey1) (hd : c.enc dek2 ctx2 m2 nd = some ct2) (hne : dek1 ≠ dek2)
+    (hkey : (b.take (18 + leVal ((b.take 18).drop 16))).drop 18 = encKey1)
+    (hdata : b.drop (18 + leVal ((b.take 18).drop 16)) = ct2) :
+    ∀ m, decryptBlock c keys ctx b ≠ .ok m := by
+  intro m h
+  obtain ⟨key, _, dek, n1, n2, encKey, encData, _, _, e2, e1, hek, hed, _⟩ := decryptBlock_genuine c hs keys ctx b m h
+  rw [hek, hkey] at e2
+  rw [hed, hdata] at e1
+  obtain ⟨_, _, h3⟩ := hc.enc_inj _ _ _ _ _ _ _ _ _ e2 hk
+  obtain ⟨h4, _, _⟩ := hc.enc_inj _ _ _ _ _ _ _ _ _ e1 hd
+  exact hne (h3.symm.trans h4)
+
+/-- **No mis-decryption (AcraStruct).** If the sealed body of an AcraStruct (the bytes after the
+145-byte header) is a ciphertext of `m0`, a successful decryption yields `m0`, in the original context. -/
+theorem struct_no_misdecrypt (c : CryptoOps) (hs : SealLaws c) (hc : SealCommit c)
+    (priv ctx d m k0 ctx0 m0 n0 ct0 : Bytes) (h : decryptStruct c priv ctx d = .ok m)
+    (hdata : d.drop 145 = ct0) (h0 : c.enc k0 ctx0 m0 n0 = some ct0) : m = m0 ∧ ctx = ctx0 := by
+  obtain ⟨_, symKey, _, _, hd⟩ := decryptStruct_ok_parts h
+  obtain ⟨n2, _, e2⟩ := hs.enc_of_dec _ _ _ _ hd
+  rw [hdata] at e2
+  obtain ⟨_, h2, h3⟩ := hc.enc_inj _ _ _ _ _ _ _ _ _ e2 h0
+  exact ⟨h3, h2⟩
+
+/-- **Reveal: accepted ⇒ genuine.** If `RegistryHandler.Process` returns `m` for `d`, then the internal
+envelope `DeserializeEncryptedData` cuts out of `d` (the declared-length part of a serialized
+container, or `d` itself for a bare envelope) is
+* either *exactly* the AcraBlock `Build` produces for `m` – tag, rest-length and all – under one of
+  the client's symmetric keys (empty context),
+* or an AcraStruct of the shape `CreateAcrastruct` produces for `m`, whose wrapped key unwraps under
+  one of the server's private keys.
+In particular a value altered anywhere inside the internal envelope reveals to the original plaintext
+or fails; bytes of `d` outside the internal envelope are only the 12-byte container header and
+whatever follows the declared length. -/
+theorem reveal_genuine (c : CryptoOps) (hs : SealLaws c) (kv : KeyView) (d m : Bytes) (h : reveal c kv d = .ok m) :
+    ∃ internal id, deserialize d = .ok (internal, id) ∧
+      ((id = idBlock ∧ ∃ ks, kv.syms = some ks ∧ ∃ key ∈ ks, ∃ dek n1 n2 encKey encData,
+          n1.length = nonceLen ∧ n2.length = nonceLen ∧
+          c.enc key [] dek n2 = some encKey ∧ c.enc dek [] m n1 = some encData ∧
+          internal = buildBlock (keyId c key []) encKey encData) ∨
+       (id = idStruct ∧ ∃ ps, kv.privs = some ps ∧ ∃ priv ∈ ps, ∃ pub wrapped body symKey n2,
+          pub.length = 45 ∧ wrapped.length = 84 ∧ n2.length = nonceLen ∧
+          internal = structTag ++ pub ++ wrapped ++ leBytes 8 body.length ++ body ∧
+          c.unwrap priv pub wrapped = some symKey ∧ symKey ≠ [] ∧ c.enc symKey [] m n2 = some body)) := by
+  obtain ⟨k, i, hd, hk⟩ := process_ok h
+  refine ⟨i, k.id, hd, ?_⟩
+  cases k with
+  | block =>
+    left
+    obtain ⟨hh, hr, _, ks, hks, hdec⟩ := decryptKind_block_ok hk
+    obtain ⟨hl, h12, h15, key, hm, dek, hid, hkd, hdd⟩ := decryptBlock_ok_parts hdec
+    obtain ⟨n2, hn2, e2⟩ := hs.enc_of_dec _ _ _ _ hkd
+    obtain ⟨n1, hn1, e1⟩ := hs.enc_of_dec _ _ _ _ hdd
+    refine ⟨rfl, ks, hks, key, hm, dek, n1, n2, blockEncKey i, blockEncData i, hn1, hn2, e2, e1, ?_⟩
+    rw [hid]
+    exact block_layout_full i hl h12 h15 ((blockHeaderOk_iff i).1 hh).1 hr
+  | struct =>
+    right
+    obtain ⟨ps, hps, priv, hpm, hdec⟩ := decryptKind_struct_ok hk
+    exact ⟨rfl, ps, hps, priv, hpm, decryptStruct_genuine c hs priv [] i m hdec⟩
+
+/-- **Reveal never yields different plaintext.** If the data part of the internal AcraBlock (or the body
+of the internal AcraStruct) of `d` is a ciphertext of `m0`, then `reveal` either fails or returns
+exactly `m0` – whatever else in `d` was flipped, truncated, extended, re-typed or spliced in. -/
+theorem reveal_no_misdecrypt (c : CryptoOps) (hs : SealLaws c) (hc : SealCommit c) (kv : KeyView)
+    (d internal : Bytes) (id : UInt8) (k0 ctx0 m0 n0 ct0 : Bytes)
+    (hd : deserialize d = .ok (internal, id)) (h0 : c.enc k0 ctx0 m0 n0 = some ct0)
+    (hdata : (id = idBlock ∧ internal.drop (18 + leVal ((internal.take 18).drop 16)) = ct0) ∨
+             (id = idStruct ∧ internal.drop 145 = ct0)) :
+    reveal c kv d = .err ∨ reveal c kv d = .ok m0 := by
+  cases hr : reveal c kv d with
+  | err => exact .inl rfl
+  | panic => exact absurd hr (process_ne_panic c kv d)
+  | ok m =>
+    right
+    obtain ⟨k, i, hd', hk⟩ := process_ok hr
+    rw [hd] at hd'
+    simp only [Out.ok.injEq, Prod.mk.injEq] at hd'
+    obtain ⟨rfl, hid⟩ := hd'
+    cases k with
+    | block =>
+      rcases hdata with ⟨_, hdat⟩ | ⟨hi, _⟩
+      · obtain ⟨_, _, _, ks, _, hdec⟩ := decryptKind_block_ok hk
+        rw [(block_no_misdecrypt c hs hc ks [] internal m k0 ctx0 m0 n0 ct0 hdec hdat h0).1]
+      · rw [hi] at hid; exact absurd hid (by decide)
+    | struct =>
+      rcases hdata with ⟨hi, _⟩ | ⟨_, hdat⟩
+      · rw [hi] at hid; exact absurd hid (by decide)
+      · obtain ⟨ps, _, priv, _, hdec⟩ := decryptKind_struct_ok hk
+        rw [(struct_no_misdecrypt c hs hc priv [] internal m k0 ctx0 m0 n0 ct0 hdec hdat h0).1]
 
 end AcraModel.Props.C03
